@@ -91,6 +91,23 @@ Qed.
 Lemma flag_byte_inv f : flag_of_byte (flag_byte f) = Some f.
 Proof. destruct f; reflexivity. Qed.
 
+(* the accepted flag strings are exactly the six of the list *)
+Lemma parse_flag_iff fs :
+  parse_flag fs <> None <->
+  In fs [s_all; s_none; s_single; s_all ++ s_any; s_none ++ s_any; s_single ++ s_any].
+Proof.
+  unfold parse_flag. split.
+  - intros H.
+    destruct (bytes_eqb fs s_all) eqn:E1; [apply bytes_eqb_eq in E1; subst; cbn; tauto|].
+    destruct (bytes_eqb fs s_none) eqn:E2; [apply bytes_eqb_eq in E2; subst; cbn; tauto|].
+    destruct (bytes_eqb fs s_single) eqn:E3; [apply bytes_eqb_eq in E3; subst; cbn; tauto|].
+    destruct (bytes_eqb fs (s_all ++ s_any)) eqn:E4; [apply bytes_eqb_eq in E4; subst; cbn; tauto|].
+    destruct (bytes_eqb fs (s_none ++ s_any)) eqn:E5; [apply bytes_eqb_eq in E5; subst; cbn; tauto|].
+    destruct (bytes_eqb fs (s_single ++ s_any)) eqn:E6; [apply bytes_eqb_eq in E6; subst; cbn; tauto|].
+    congruence.
+  - intros [<-|[<-|[<-|[<-|[<-|[<-|[]]]]]]]; vm_compute; discriminate.
+Qed.
+
 Section Proofs.
   Variable kdf : bytes -> bytes -> bytes.
   Variable digest : bytes -> bytes.
@@ -100,6 +117,7 @@ Section Proofs.
   Variable branch_ok : bytes -> bool.
   Variable derive_sk : bytes -> Z -> Z -> option sk.
   Variable sign : sk -> bytes -> bytes.
+  Variable zfix : bool.
   Variable cfg : amcfg.
   Variable right : bytes.
   Variable acct : bytes.
@@ -117,6 +135,8 @@ Section Proofs.
   Variable pub_at : addr -> pk.
   Variable warmup : Z.
   Variable env : outpoint -> look.
+  Variable pfix : bool.
+  Variable pending_height : Z.
   Variable engine : uinfo -> tx -> nat -> bool -> bool.
 
   (* What is assumed:
@@ -138,15 +158,16 @@ Section Proofs.
   Hypothesis laws : sign_laws.
 
   Local Notation amstate := (amstate sk).
-  Local Notation Inv := (Inv kdf shash sk cfg right acct sk_of).
-  Local Notation step := (step kdf digest shash open_box sk bytes branch_ok derive_sk sign cfg).
-  Local Notation reachable := (reachable kdf digest shash open_box sk bytes branch_ok derive_sk sign cfg).
+  Local Notation Inv := (Inv kdf shash sk zfix cfg right acct sk_of).
+  Local Notation eff_height := (eff_height pfix pending_height).
+  Local Notation step := (step kdf digest shash open_box sk bytes branch_ok derive_sk sign zfix cfg).
+  Local Notation reachable := (reachable kdf digest shash open_box sk bytes branch_ok derive_sk sign zfix cfg).
   Local Notation sign_input :=
-    (sign_input kdf digest shash open_box sk branch_ok derive_sk sign cfg pk sighash redeem pub_at warmup env engine).
+    (sign_input kdf digest shash open_box sk branch_ok derive_sk sign zfix cfg pk sighash redeem pub_at warmup env pfix pending_height engine).
   Local Notation sign_loop :=
-    (sign_loop kdf digest shash open_box sk branch_ok derive_sk sign cfg pk sighash redeem pub_at warmup env engine).
+    (sign_loop kdf digest shash open_box sk branch_ok derive_sk sign zfix cfg pk sighash redeem pub_at warmup env pfix pending_height engine).
   Local Notation sign_raw :=
-    (sign_raw kdf digest shash open_box sk branch_ok derive_sk sign cfg pk sighash redeem pub_at warmup env engine).
+    (sign_raw kdf digest shash open_box sk branch_ok derive_sk sign zfix cfg pk sighash redeem pub_at warmup env pfix pending_height engine).
   Local Notation template := (engine_template pk verify sighash sha256 pk_of_redeem).
   Local Notation ip2_of := (ip2_of warmup).
 
@@ -179,10 +200,10 @@ Section Proofs.
     - destruct (u_addr u) as [a|]; [|intros H; inversion H; auto].
       destruct (step st _) as [[o st1] uu].
       destruct o; try (intros H; inversion H; auto; fail).
-      destruct (u_height u) as [h|].
+      destruct (eff_height u) as [h|].
       + destruct (engine u _ i (ip2_of h)); intros H; inversion H; subst; apply strip_set_wit.
       + intros H; inversion H; subst; apply strip_set_wit.
-    - destruct (u_height u) as [h|]; [|intros H; inversion H; auto].
+    - destruct (eff_height u) as [h|]; [|intros H; inversion H; auto].
       destruct (engine u t i (ip2_of h)); intros H; inversion H; auto.
   Qed.
 
@@ -220,13 +241,13 @@ Section Proofs.
   Definition owned (t : tx) : Prop :=
     forall i inp, nth_error (t_ins t) i = Some inp ->
       exists u a h, env (in_prev inp) = LOut u /\ u_spent u = false /\ u_addr u = Some a /\
-                    u_height u = Some h /\ seq_ok (u_class u) (ip2_of h) (in_seq inp) = true.
+                    eff_height u = Some h /\ seq_ok (u_class u) (ip2_of h) (in_seq inp) = true.
   Definition single_guard (f : flag) (t : tx) : Prop :=
     is_single f = true -> (length (t_ins t) <= length (t_outs t))%nat.
 
   Definition verified (t : tx) (j : nat) : Prop :=
     exists inp u h, nth_error (t_ins t) j = Some inp /\ env (in_prev inp) = LOut u /\
-                    u_height u = Some h /\ engine u t j (ip2_of h) = true.
+                    eff_height u = Some h /\ engine u t j (ip2_of h) = true.
 
   Lemma owned_strip t1 t2 : strip_witness t1 = strip_witness t2 -> owned t1 -> owned t2.
   Proof.
@@ -248,7 +269,7 @@ Section Proofs.
     { destruct (is_single f) eqn:S; [|reflexivity]. cbn. apply Nat.ltb_lt. auto. }
     rewrite C.
     set (red := redeem (pub_at a)). set (m := sighash f t i (u_value u) red).
-    destruct (sign_right kdf digest shash open_box sk bytes branch_ok derive_sk sign cfg right acct ent sk_of ulaws
+    destruct (sign_right kdf digest shash open_box sk bytes branch_ok derive_sk sign zfix cfg right acct ent sk_of ulaws
                 st a m I) as (st' & uu & Es & I' & _).
     { split; [exact K|apply (sighash_len laws)]. }
     rewrite Es. rewrite Hh.
@@ -302,10 +323,10 @@ Section Proofs.
   Theorem sign_ok st fs f t : reachable st -> parse_flag fs = Some f -> owned t -> single_guard f t ->
     exists t', sign_raw st right fs t = (SOk, init_state, t', Some t') /\
       strip_witness t' = strip_witness t /\
-      all_inputs_verify warmup env engine t'.
+      all_inputs_verify warmup env pfix pending_height engine t'.
   Proof.
     intros R Pf O G. unfold Sign.sign_raw. rewrite Pf.
-    pose proof (reachable_Inv kdf digest shash open_box sk bytes branch_ok derive_sk sign cfg right acct ent sk_of ulaws st R) as I.
+    pose proof (reachable_Inv kdf digest shash open_box sk bytes branch_ok derive_sk sign zfix cfg right acct ent sk_of ulaws st R) as I.
     destruct (sign_loop_right f t O G (length (t_ins t)) 0%nat st t) as (st' & t' & E & I' & S' & V); auto.
     { intros j Hj. lia. }
     rewrite E. exists t'. split; [reflexivity|]. split; [exact S'|].
@@ -318,7 +339,7 @@ Section Proofs.
 
   (* ---------------------------------------------------------------- wrong passphrase *)
   Local Ltac fin I :=
-    split; [reflexivity|]; split; [exact I|]; split; [intros W0 | intros u0 a0 h0 E0 S0 A0 H0 G0].
+    split; [reflexivity|]; split; [exact I|]; split; [intros W0 | intros u0 a0 E0 S0 A0 G0].
 
   Lemma sign_input_none st p f t i : nth_error (t_ins t) i = None -> sign_input st p f t i = (SOk, st, t).
   Proof. intros N. unfold Sign.sign_input. rewrite N. reflexivity. Qed.
@@ -326,8 +347,8 @@ Section Proofs.
   Lemma sign_input_wrong st p f t i inp : Inv st -> p <> right -> nth_error (t_ins t) i = Some inp ->
     exists r st', sign_input st p f t i = (r, st', t) /\ Inv st' /\
       (in_wit inp = [] -> r <> SOk) /\
-      (forall u a h, env (in_prev inp) = LOut u ->
-         u_spent u = false -> u_addr u = Some a -> u_height u = Some h ->
+      (forall u a, env (in_prev inp) = LOut u ->
+         u_spent u = false -> u_addr u = Some a ->
          (is_single f = true -> (i < length (t_outs t))%nat) ->
          r = SErr (SKeystore EInvalidPassphrase)).
   Proof.
@@ -340,7 +361,7 @@ Section Proofs.
     destruct (negb (is_single f) || (i <? length (t_outs t))%nat) eqn:C.
     - destruct (u_addr u) as [a|] eqn:A.
       + destruct (env_addr laws _ u a E A) as [K _].
-        destruct (sign_wrong kdf digest shash open_box sk bytes branch_ok derive_sk sign cfg right acct ent sk_of ulaws
+        destruct (sign_wrong kdf digest shash open_box sk bytes branch_ok derive_sk sign zfix cfg right acct ent sk_of ulaws
                     st p a (sighash f t i (u_value u) (redeem (pub_at a))) I) as (st' & Es & I' & _); auto.
         { split; [exact K|apply (sighash_len laws)]. }
         rewrite Es. eexists; exists st'. fin I'. * discriminate. * reflexivity.
@@ -348,7 +369,7 @@ Section Proofs.
     - assert (Sk : forall (P : Prop), (is_single f = true -> (i < length (t_outs t))%nat) -> P).
       { intros P Sg. exfalso. destruct (is_single f) eqn:S1; [|discriminate].
         specialize (Sg eq_refl). apply Nat.ltb_lt in Sg. rewrite Sg in C. discriminate. }
-      destruct (u_height u) as [h|] eqn:Hh.
+      destruct (eff_height u) as [h|] eqn:Hh.
       + destruct (engine u t i (ip2_of h)) eqn:En.
         * exists SOk, st. fin I.
           -- rewrite (engine_law laws), (template_empty u t i _ inp N W0) in En. discriminate.
@@ -360,8 +381,8 @@ Section Proofs.
   Lemma sign_loop_wrong p f idxs : p <> right -> forall st t, Inv st ->
     exists r st', sign_loop idxs st p f t = (r, st', t) /\ Inv st' /\
       (forall i rest inp, idxs = i :: rest -> nth_error (t_ins t) i = Some inp -> in_wit inp = [] -> r <> SOk) /\
-      (forall i rest inp u a h, idxs = i :: rest -> nth_error (t_ins t) i = Some inp ->
-         env (in_prev inp) = LOut u -> u_spent u = false -> u_addr u = Some a -> u_height u = Some h ->
+      (forall i rest inp u a, idxs = i :: rest -> nth_error (t_ins t) i = Some inp ->
+         env (in_prev inp) = LOut u -> u_spent u = false -> u_addr u = Some a ->
          (is_single f = true -> (i < length (t_outs t))%nat) ->
          r = SErr (SKeystore EInvalidPassphrase)).
   Proof.
@@ -375,22 +396,22 @@ Section Proofs.
           exists r2, st2. split; [reflexivity|]. split; [exact I2|]. split.
           -- intros i' rest' inp' H N' W. injection H as <- <-. rewrite N in N'. injection N' as <-.
              exfalso. apply (A1 W). reflexivity.
-          -- intros i' rest' inp' u a h H N' Ev Sp Ad Hh Sg. injection H as <- <-.
+          -- intros i' rest' inp' u a H N' Ev Sp Ad Sg. injection H as <- <-.
              rewrite N in N'. injection N' as <-.
-             specialize (B1 u a h Ev Sp Ad Hh Sg). discriminate.
+             specialize (B1 u a Ev Sp Ad Sg). discriminate.
         * exists (SErr e), st1. split; [reflexivity|]. split; [exact I1|]. split.
           -- intros; discriminate.
-          -- intros i' rest' inp' u a h H N' Ev Sp Ad Hh Sg. injection H as <- <-.
+          -- intros i' rest' inp' u a H N' Ev Sp Ad Sg. injection H as <- <-.
              rewrite N in N'. injection N' as <-. eauto.
         * exists SPanic, st1. split; [reflexivity|]. split; [exact I1|]. split.
           -- intros; discriminate.
-          -- intros i' rest' inp' u a h H N' Ev Sp Ad Hh Sg. injection H as <- <-.
+          -- intros i' rest' inp' u a H N' Ev Sp Ad Sg. injection H as <- <-.
              rewrite N in N'. injection N' as <-. eauto.
       + rewrite (sign_input_none st p f t i N).
         destruct (IH st t I) as (r2 & st2 & E2 & I2 & _). rewrite E2.
         exists r2, st2. split; [reflexivity|]. split; [exact I2|]. split.
         * intros i' rest' inp' H N' W. injection H as <- <-. congruence.
-        * intros i' rest' inp' u a h H N' _ _ _ _ _. injection H as <- <-. congruence.
+        * intros i' rest' inp' u a H N' _ _ _ _. injection H as <- <-. congruence.
   Qed.
 
   (* any other passphrase, any reachable state: nothing is written into the transaction, nothing
@@ -402,7 +423,7 @@ Section Proofs.
                   (r = SOk /\ sign_raw st p fs t = (SOk, st', t, Some t)).
   Proof.
     intros R Hp.
-    pose proof (reachable_Inv kdf digest shash open_box sk bytes branch_ok derive_sk sign cfg right acct ent sk_of ulaws st R) as I.
+    pose proof (reachable_Inv kdf digest shash open_box sk bytes branch_ok derive_sk sign zfix cfg right acct ent sk_of ulaws st R) as I.
     unfold Sign.sign_raw. destruct (parse_flag fs) as [f|].
     - destruct (sign_loop_wrong p f (seq 0 (length (t_ins t))) Hp st t I) as (r & st' & E & _).
       rewrite E. destruct r; eauto.
@@ -413,7 +434,7 @@ Section Proofs.
     exists r st', sign_raw st p fs t = (r, st', t, None) /\ r <> SOk.
   Proof.
     intros R Hp Un Ne.
-    pose proof (reachable_Inv kdf digest shash open_box sk bytes branch_ok derive_sk sign cfg right acct ent sk_of ulaws st R) as I.
+    pose proof (reachable_Inv kdf digest shash open_box sk bytes branch_ok derive_sk sign zfix cfg right acct ent sk_of ulaws st R) as I.
     unfold Sign.sign_raw. destruct (parse_flag fs) as [f|].
     - destruct (sign_loop_wrong p f (seq 0 (length (t_ins t))) Hp st t I) as (r & st' & E & _ & A & _).
       rewrite E.
@@ -425,18 +446,49 @@ Section Proofs.
     - eexists; eexists; split; [reflexivity|discriminate].
   Qed.
 
-  Theorem sign_wrong_pass_error st p fs f t inp u a h : reachable st -> p <> right ->
+  Theorem sign_wrong_pass_error st p fs f t inp u a : reachable st -> p <> right ->
     parse_flag fs = Some f -> nth_error (t_ins t) 0 = Some inp ->
-    env (in_prev inp) = LOut u -> u_spent u = false -> u_addr u = Some a -> u_height u = Some h ->
+    env (in_prev inp) = LOut u -> u_spent u = false -> u_addr u = Some a ->
     (is_single f = true -> (0 < length (t_outs t))%nat) ->
     exists st', sign_raw st p fs t = (SErr (SKeystore EInvalidPassphrase), st', t, None).
   Proof.
-    intros R Hp Pf N Ev Sp Ad Hh Sg.
-    pose proof (reachable_Inv kdf digest shash open_box sk bytes branch_ok derive_sk sign cfg right acct ent sk_of ulaws st R) as I.
+    intros R Hp Pf N Ev Sp Ad Sg.
+    pose proof (reachable_Inv kdf digest shash open_box sk bytes branch_ok derive_sk sign zfix cfg right acct ent sk_of ulaws st R) as I.
     unfold Sign.sign_raw. rewrite Pf.
     destruct (sign_loop_wrong p f (seq 0 (length (t_ins t))) Hp st t I) as (r & st' & E & _ & _ & B).
     rewrite E.
     destruct (t_ins t) as [|inp0 l] eqn:Et; [discriminate|]. cbn in N. inversion N; subst inp0.
-    rewrite (B 0%nat (seq 1 (length l)) inp u a h); auto. eexists. reflexivity.
+    rewrite (B 0%nat (seq 1 (length l)) inp u a); auto. eexists. reflexivity.
+  Qed.
+  (* ---------------------------------------------------------------- pending inputs *)
+  (* the repaired code gives every previous output a height: confirmed ones their block's,
+     pending ones the height above the synced tip — so [owned] covers pending inputs *)
+  Lemma eff_height_fixed u : pfix = true ->
+    eff_height u = Some (match u_height u with Some h => h | None => pending_height end).
+  Proof. intros P. unfold Sign.eff_height. rewrite P. destruct (u_height u); reflexivity. Qed.
+
+  (* the code as first found: a transaction whose first input spends a PENDING output of the
+     wallet makes SignRawTx panic (after the signature has been produced), right passphrase or not
+     being irrelevant to the panic itself *)
+  Theorem sign_pending_panics st fs f t inp u a : pfix = false -> reachable st ->
+    parse_flag fs = Some f -> nth_error (t_ins t) 0 = Some inp ->
+    env (in_prev inp) = LOut u -> u_spent u = false -> u_addr u = Some a -> u_height u = None ->
+    (is_single f = true -> (0 < length (t_outs t))%nat) ->
+    exists t', sign_raw st right fs t = (SPanic, init_state, t', None).
+  Proof.
+    intros P R Pf N Ev Sp Ad Hh Sg.
+    pose proof (reachable_Inv kdf digest shash open_box sk bytes branch_ok derive_sk sign zfix cfg right acct ent sk_of ulaws st R) as I.
+    unfold Sign.sign_raw. rewrite Pf.
+    destruct (t_ins t) as [|inp0 l] eqn:Et; [discriminate|]. cbn in N. injection N as ->.
+    cbn [length seq Sign.sign_loop]. unfold Sign.sign_input. rewrite Et. cbn [nth_error].
+    rewrite Ev, Sp, Ad.
+    assert (C : negb (is_single f) || (0 <? length (t_outs t))%nat = true).
+    { destruct (is_single f) eqn:S1; [|reflexivity]. cbn [negb orb]. apply Nat.ltb_lt. auto. }
+    rewrite C.
+    destruct (env_addr laws _ u a Ev Ad) as [K _].
+    destruct (sign_right kdf digest shash open_box sk bytes branch_ok derive_sk sign zfix cfg right acct ent sk_of ulaws
+                st a (sighash f t 0 (u_value u) (redeem (pub_at a))) I) as (st' & uu & Es & _).
+    { split; [exact K|apply (sighash_len laws)]. }
+    rewrite Es. unfold Sign.eff_height. rewrite Hh, P. eexists. reflexivity.
   Qed.
 End Proofs.
